@@ -66,6 +66,9 @@ theorem View.sameStructure (c : Cell) (x : α) (v : View ν α) : SameStructure 
       · rfl
     · simp only [View.setCell, View.leaves, List.map_cons, List.map_nil, updLeaf]
       split <;> simp [View.leaves]
+  | matrixOf s r cn ih =>
+    exact ⟨by simp [View.setCell, View.shape, ih.1], by intro idx; simp [View.setCell, View.get, ih.2.1],
+      by simp [View.setCell, View.leaves, ih.2.2]⟩
   | range s rs ih =>
     exact ⟨by simp [View.setCell, View.shape, ih.1], by intro idx; simp [View.setCell, View.get, ih.2.1],
       by simp [View.setCell, View.leaves, ih.2.2]⟩
